@@ -208,7 +208,8 @@ def generate(tier):
         ps.append(Probe(f"cross/mutate/{cname}", prog("", nest.format(USE=use)), "reject", group="cross"))
     fin = "let mut a1 = arena(); let mut a2 = arena();\nlet m1 = a1.finish_marking().unwrap(); let m2 = a2.finish_marking().unwrap();\nm1.finalize(|fc1, r1| {{ m2.finalize(|fc2, r2| {{ let mc1: &Mutation<'_> = fc1; let mc2: &Mutation<'_> = fc2; {USE} }}); }});"
     ps.append(Probe("cross/finalize/twin", prog("", fin.format(USE="r2.slot.set(mc2, Some(r2.g)); let _ = r1.w.resurrect(fc1);")), "accept", group="cross"))
-    for cname, use in list(CROSS.items()) + [("resurrect_foreign", "let _ = r1.w.resurrect(fc2);"), ("is_dead_foreign", "let _ = r1.w.is_dead(fc2);")]:
+    for cname, use in list(CROSS.items()) + [("resurrect_foreign", "let _ = r1.w.resurrect(fc2);"), ("is_dead_foreign", "let _ = r1.w.is_dead(fc2);"), ("gc_is_dead_foreign", "let _ = Gc::is_dead(fc2, r1.g);"), ("gc_resurrect_foreign", "Gc::resurrect(fc2, r1.g);"),
+                             ("gc_is_dead_foreign_upgraded", "let _ = Gc::is_dead(fc2, r1.w.upgrade(mc1).unwrap());")]:
         ps.append(Probe(f"cross/finalize/{cname}", prog("", fin.format(USE=use)), "reject", group="cross"))
     ps.append(Probe("cross/swap_roots", prog("", "let mut a1 = arena(); let mut a2 = arena();\na1.mutate_root(|_, r1| { a2.mutate_root(|_, r2| { std::mem::swap(r1, r2); }); });"), "reject", group="cross"))
     ps.append(Probe("cross/swap_roots_twin", prog("", "let mut a1 = arena(); let mut a2 = arena();\na1.mutate_root(|_, r1| { a2.mutate_root(|_, r2| { let _ = (&r1.g, &r2.g); }); });"), "accept", group="cross"))
